@@ -1,0 +1,99 @@
+//go:build verif
+
+package agent
+
+// Machine-checked contracts for package agent (comment-only; read by /verif/engine).
+
+//@ model view SeqU
+//@ model pos Int
+//@ model snap SeqU
+
+// ---------------------------------------------------------------- iterator (C17)
+
+//@ type *iterator_
+//@   modelfield pos this.slot_
+//@   modelfield snap view(this.values_)
+//@   invariant 0 <= this.slot_ && this.slot_ <= this.size_ && this.size_ == len(this.values_)
+
+//@ iface IteratorClassLike.MakeFromArray
+//@   requires[C17,C18] localfresh(values)
+//@   nopanic
+//@   ensures fresh(result) && snap(result) == view(values) && pos(result) == 0
+
+//@ iface IteratorLike.GetSize
+//@   nopanic
+//@   ensures[C17] result == len(snap(this))
+//@ iface IteratorLike.GetSlot
+//@   nopanic
+//@   ensures[C17] result == pos(this) && 0 <= result && result <= len(snap(this))
+//@ iface IteratorLike.IsEmpty
+//@   nopanic
+//@   ensures[C17] result <==> len(snap(this)) == 0
+//@ iface IteratorLike.HasNext
+//@   nopanic
+//@   ensures[C17] result <==> pos(this) < len(snap(this))
+//@ iface IteratorLike.HasPrevious
+//@   nopanic
+//@   ensures[C17] result <==> pos(this) > 0
+//@ iface IteratorLike.GetNext
+//@   nopanic
+//@   modifies pos(this)
+//@   ensures[C17] old(pos(this)) < len(snap(this)) ==> result == snap(this)[old(pos(this))] && pos(this) == old(pos(this)) + 1
+//@   ensures[C17] old(pos(this)) >= len(snap(this)) ==> result == zero(V) && pos(this) == old(pos(this))
+//@ iface IteratorLike.GetPrevious
+//@   nopanic
+//@   modifies pos(this)
+//@   ensures[C17] old(pos(this)) > 0 ==> result == snap(this)[old(pos(this)) - 1] && pos(this) == old(pos(this)) - 1
+//@   ensures[C17] old(pos(this)) <= 0 ==> result == zero(V) && pos(this) == old(pos(this))
+//@ iface IteratorLike.ToStart
+//@   nopanic
+//@   modifies pos(this)
+//@   ensures[C17] pos(this) == 0
+//@ iface IteratorLike.ToEnd
+//@   nopanic
+//@   modifies pos(this)
+//@   ensures[C17] pos(this) == len(snap(this))
+//@ iface IteratorLike.ToSlot
+//@   nopanic
+//@   modifies pos(this)
+//@   let n := len(snap(this))
+//@   ensures[C17] slot > n ==> pos(this) == n
+//@   ensures[C17] 0 <= slot && slot <= n ==> pos(this) == slot
+//@   ensures[C17] -n <= slot && slot < 0 ==> pos(this) == slot + n + 1
+//@   ensures[C17] slot < -n ==> pos(this) == ite(n == 0, 0, 1)
+
+//@ func (*iteratorClass_).MakeFromArray
+//@   props C17 C18
+//@   implements IteratorClassLike.MakeFromArray
+//@   ensures[C17] inv(iterator_, result)
+
+//@ func (*iterator_).GetSize
+//@   props C17
+//@   implements IteratorLike.GetSize
+//@ func (*iterator_).GetSlot
+//@   props C17
+//@   implements IteratorLike.GetSlot
+//@ func (*iterator_).IsEmpty
+//@   props C17
+//@   implements IteratorLike.IsEmpty
+//@ func (*iterator_).HasNext
+//@   props C17
+//@   implements IteratorLike.HasNext
+//@ func (*iterator_).HasPrevious
+//@   props C17
+//@   implements IteratorLike.HasPrevious
+//@ func (*iterator_).GetNext
+//@   props C17
+//@   implements IteratorLike.GetNext
+//@ func (*iterator_).GetPrevious
+//@   props C17
+//@   implements IteratorLike.GetPrevious
+//@ func (*iterator_).ToStart
+//@   props C17
+//@   implements IteratorLike.ToStart
+//@ func (*iterator_).ToEnd
+//@   props C17
+//@   implements IteratorLike.ToEnd
+//@ func (*iterator_).ToSlot
+//@   props C17
+//@   implements IteratorLike.ToSlot
